@@ -193,13 +193,16 @@ func sceneBindingMsg(op int, o BindOpts) {
 	// identity and indexes (D)
 	chk("C15", vf.All(post.ServiceName == Svc, post.Provider.Equals(prov), post.Owner.Equals(owner) || !present && !owned), "binding-identity")
 	own, hasOwn := k.GetOwner(ctx, prov)
-	chk("C15", vf.And(hasOwn, own.Equals(post.Owner)), "provider-has-one-owner")
+	chk("C15 C05 C13", vf.And(hasOwn, own.Equals(post.Owner)), "provider-has-one-owner")
 	chk("C15 C17 C13", vf.All(vf.Store(ctx).Has(types.GetOwnerServiceBindingKey(post.Owner, Svc, prov)), vf.Store(ctx).Has(types.GetOwnerProviderKey(post.Owner, prov))), "owner-indexes-present")
+	// names are case-sensitive keys: the binding is not visible under another spelling of its service's name
+	_, seenUp := k.GetServiceBinding(ctx, SvcUp, prov)
+	chk("C15 C05 C18", !seenUp, "binding-not-visible-under-another-spelling-of-the-name")
 	lst := k.GetOwnerServiceBindings(ctx, post.Owner, Svc)
 	chk("C15 C17", len(lst) == 1, "binding-listed-for-its-owner")
 	stored := k.GetPricing(ctx, Svc, prov)
 	reparsed, rerr := k.ParsePricing(ctx, post.Pricing)
-	chk("C15 C07 C06", vf.And(rerr == nil, stored.Price.AmountOf(Denom).Equal(reparsed.Price.AmountOf(Denom))), "stored-price-matches-published-text")
+	chk("C15 C07 C06 C04 C14", vf.And(rerr == nil, stored.Price.AmountOf(Denom).Equal(reparsed.Price.AmountOf(Denom))), "stored-price-matches-published-text")
 	samePromos := vf.And(len(stored.PromotionsByTime) == len(reparsed.PromotionsByTime), len(stored.PromotionsByVolume) == len(reparsed.PromotionsByVolume))
 	if len(stored.PromotionsByTime) == len(reparsed.PromotionsByTime) && len(stored.PromotionsByVolume) == len(reparsed.PromotionsByVolume) {
 		for i := range stored.PromotionsByTime {
